@@ -945,6 +945,10 @@ pub fn gen_history(seed: u64, k: u64, max_events: usize) -> History {
     let mut buffers: BTreeMap<String, String> = BTreeMap::new();
     let mut old_texts: BTreeMap<String, String> = BTreeMap::new();
     let mut events = vec![];
+    // requests already issued: re-asking the same question after an edit is what exposes
+    // answers that are cached or otherwise carried over from an earlier state
+    let mut past_requests: Vec<Ev> = vec![];
+    let w_repeat = rng.below(6) as u32;
     // an editor opens the entry file first, with what is on disk
     if rng.chance(9, 10) {
         let t = model_disk["main.asm"].clone().unwrap_or_default();
@@ -952,8 +956,12 @@ pub fn gen_history(seed: u64, k: u64, max_events: usize) -> History {
         events.push(Ev::Open { file: "main.asm".into(), text: t });
     }
     while events.len() < n_events {
-        let choice = rng.weighted(&[w_req, w_mut, w_var, w_type, w_close, w_open, w_disk]);
+        let choice = rng.weighted(&[w_req, w_mut, w_var, w_type, w_close, w_open, w_disk, if past_requests.is_empty() { 0 } else { w_repeat }]);
         match choice {
+            7 => {
+                let e = rng.pick(&past_requests).clone();
+                events.push(e);
+            }
             0 => {
                 let kind = rng.pick(REQ_KINDS).to_string();
                 let roll = rng.below(100);
@@ -975,7 +983,9 @@ pub fn gen_history(seed: u64, k: u64, max_events: usize) -> History {
                     "textDocument/references" => rng.pick(&["", "nodecl"][..]).to_string(),
                     _ => String::new(),
                 };
-                events.push(Ev::Req { kind, file, line, col, extra, pos_kind });
+                let e = Ev::Req { kind, file, line, col, extra, pos_kind };
+                past_requests.push(e.clone());
+                events.push(e);
             }
             1 | 2 | 3 => {
                 let open: Vec<String> = buffers.keys().cloned().collect();
@@ -996,6 +1006,10 @@ pub fn gen_history(seed: u64, k: u64, max_events: usize) -> History {
                     old_texts.insert(file.clone(), buffers[&file].clone());
                     buffers.insert(file.clone(), t.clone());
                     events.push(Ev::Change { file: file.clone(), text: t });
+                }
+                if !past_requests.is_empty() && rng.chance(w_repeat, 12) {
+                    let e = rng.pick(&past_requests).clone();
+                    events.push(e);
                 }
             }
             4 => {
